@@ -21,6 +21,45 @@ func c10Finish(w *harness.World) {
 	}
 }
 
+// readersProfile: up to two readers paused inside their visits (iterators that
+// have delivered part of their range) while the single mutator goes on; every
+// order of acquiring and releasing the pinned versions.
+func readersProfile(depth int) *SeqProfile {
+	return &SeqProfile{Name: "readers", Keys: [][]byte{kA, kB, kC, kD}, Depth: depth, Finish: c10Finish,
+		Mon: harness.Monitors{Recycle: true},
+		Init: func(w *harness.World) {
+			w.SetCollection("x", "nil")
+			w.SetItem("x", kA, 2, bs("a0"))
+			w.SetItem("x", kB, 3, bs("b0"))
+			w.SetItem("x", kC, 1, bs("c0"))
+		},
+		Letters: func(w *harness.World) []Letter {
+			ls := []Letter{
+				{"Set(a)", func(w *harness.World) { w.SetItem("x", kA, 2, bs("a1")) }},
+				{"Set(c)", func(w *harness.World) { w.SetItem("x", kC, 1, bs("c1")) }},
+				{"Set(d)", func(w *harness.World) { w.SetItem("x", kD, 4, bs("d1")) }},
+				{"Del(b)", func(w *harness.World) { w.Delete("x", kB) }},
+			}
+			open := 0
+			for i, it := range w.Iters {
+				if !it.Closed {
+					open++
+					i := i
+					ls = append(ls, Letter{fmt.Sprintf("IterNext(i%d)", i), func(w *harness.World) { w.IterNext(i) }},
+						Letter{fmt.Sprintf("IterClose(i%d)", i), func(w *harness.World) { w.IterClose(i) }})
+				}
+			}
+			if open < 2 {
+				ls = append(ls, Letter{"IterOpen", func(w *harness.World) { w.IterOpen("x") }})
+			}
+			return ls
+		}}
+}
+
+func readersRule(depth int) string {
+	return fmt.Sprintf("3-item collection, every history of length <= %d over Set (overwrite a, c; new key d), Delete(b) by the mutator and IterOpen / IterNext / IterClose of up to two iterators that stay paused inside their visits across the mutations (readers pinned on different versions, released in every order); oracles: no freed node reachable from an open handle, and after forced reuse of everything freed each paused reader still delivers exactly the version it pinned and the collection equals the model", depth)
+}
+
 func c10Profiles(tier string) []Profile {
 	d := 5
 	if tier == "thorough" {
@@ -81,7 +120,11 @@ func c10Profiles(tier string) []Profile {
 				Letter{"Renew(B)", func(w *harness.World) { w.Aux.CloseStore(); newAux(w) }})
 			return append(ls, snapLetters(w, 1, true)...)
 		}}
-	return []Profile{p.Profile(fmt.Sprintf("every history of length <= %d over two stores sharing the process-wide free lists (A: file-backed, collections x,y; B: memory-only): Set/Delete/Evict, Flush, SetCollection on an existing name, remove+recreate, Snapshot/read/revert/close of a snapshot, an iterator left open across letters (Next/Close), mutations nested inside a visitor callback, closing and renewing B; oracles: no node on the free list is reachable from any open handle, and after a churn phase that reuses everything freed, every open handle still equals the model and every open iterator delivers exactly the version it pinned", d))}
+	dr := 6
+	if tier == "thorough" {
+		dr = 7
+	}
+	return []Profile{readersProfile(dr).Profile(readersRule(dr)), p.Profile(fmt.Sprintf("every history of length <= %d over two stores sharing the process-wide free lists (A: file-backed, collections x,y; B: memory-only): Set/Delete/Evict, Flush, SetCollection on an existing name, remove+recreate, Snapshot/read/revert/close of a snapshot, an iterator left open across letters (Next/Close), mutations nested inside a visitor callback, closing and renewing B; oracles: no node on the free list is reachable from any open handle, and after a churn phase that reuses everything freed, every open handle still equals the model and every open iterator delivers exactly the version it pinned", d))}
 }
 
 func init() {
